@@ -15,6 +15,10 @@
 //  5. kid life cycle monitor (lifecycle_test.go): kids that are used, then re-pointed / removed / re-created (directly, in committed and in
 //     rolled back SQL transactions, with concurrent users) and used again through every entry point; the key each result came from must be
 //     the key the harness' own kid table designates at that moment.
+//  6. key creation monitor (creation_test.go): keys created through the generate-then-store back ends (external store client against a
+//     secret store owned by the harness, fs) while the store reports conflicts / failures / stale answers, another client writes the same
+//     name between existence check and write, or several creators race for one name; the public key a successful creation hands out must
+//     be the public half of the key held - and used - under that name / key id.
 package c03
 
 import (
@@ -389,12 +393,17 @@ func TestCheck(t *testing.T) {
 		"{Link to an imported key, Link to the key of another kid, Link to another version of the same key name (versioned back end), New yielding the same kid, Delete, Delete+New, Delete+Link, Link/New inside an SQL transaction that commits / is rolled back} " +
 		"on the node's key store (fs back end; Go and HTTP entry points) and on a second crypto.Crypto over a versioned back end owned by the harness, plus seeded chains of 2-4 changes with seeded warm-ups and programs with 4 concurrent users during 6 re-pointings; " +
 		"after every change every entry point (Exists, List, Resolve, SignJWT, SignJWS, SignDPoP, Decrypt, DecryptJWE, sign_jwt, sign_jws, dpop, decrypt_jwe) runs; non-trivial when the result came from exactly the key the harness' kid table designates (or there was none and the call failed). " +
+		"(f) key creations (layer, back end, store behaviour, outcome[, entry point]): NewPrivateKey of the real external-store client (against a secret store owned by the harness) and of the fs back end behind the validating wrapper, and crypto.Crypto.New over the external client and a real SQL engine, " +
+		"under every combination of {name absent | held by another client} x existence check {true answer, stale 'not found', 500, lost} x {nothing | another client writes the name between check and write} x write {honest, stored then conflict reported, stored then 500, stored then response lost, 500, 400, conflict with nothing readable, lost}, " +
+		"a second creation of the same name after a failed one (seeded behaviour), and 2-6 concurrent creators of one name (external store: the existence checks of the first k creators are answered only when all k arrived, the others start when the first write landed; fs: released together, unsteered); " +
+		"a creation that reported success must have handed out the public half of the key the store holds under the name (reference: the store's own table, parsed with the standard library), every Resolve / SignJWT / SignJWS / SignDPoP / Decrypt result for the key id and a signature by the signer the back end returns for the name must come from that published key, " +
+		"and the key id of a failed creation must be unusable; non-trivial when the verdict could be taken (how many creators succeed and orphan secrets are not judged). " +
 		"OKP X25519 and oct keys (families the node cannot hold) and foreign keys over HTTP sign_jws are driven too, an echo of those is unspecified. " +
 		"Canary patterns: raw, hex (lower/upper/trimmed/colon), Go and JSON byte lists, base64url/base64 (padded, unpadded, and the two shifted alignments inside a larger base64 container), decimal, PEM body lines and DER chunk of every secret component (EC D; RSA D, primes, CRT values; Ed25519 seed); " +
 		fmt.Sprintf("patterns shorter than %d bytes are skipped to avoid coincidences. Streams are searched as emitted, with whitespace/escaped line breaks removed, and after decoding every base64url/base64/hex run (nested, depth 4).", minPatternLen))
 	r.Require(r.Pick(2500, 10000), r.Pick(1500, 6000))
 	r.Assume("the quantifier 'all call sites that can reach raw key bytes' is a statement about program text; this check covers the output channels the workload drives (listed in operations_exercised) and says nothing about code the workload does not reach")
-	r.Assume("fs key back end only (vault / azure / external back ends are not exercised); keys are EC P-256 as the node creates them, plus one RSA-2048 and one Ed25519 key imported into the key directory and linked through KeyStore.Link")
+	r.Assume("the node runs on the fs key back end; the external-store client is exercised by the key creation monitor only (against an honest secret store owned by the harness: 200 to a write means that secret is held, writes never replace a held secret); vault / azure back ends are not exercised; keys are EC P-256 as the node creates them, plus one RSA-2048 and one Ed25519 key imported into the key directory and linked through KeyStore.Link")
 	r.Assume("kid life cycle: re-pointing a kid to another VERSION of a key name is observed on a second key store - the real crypto.Crypto over the real validating wrapper and a real SQL storage engine - whose leaf back end is an in-memory versioned store owned by the harness (the fs back end ignores versions; Vault / Azure are not exercised); verdicts while changes and users run concurrently only demand a key the kid designated at some point of the run, verdicts after all calls returned demand the last one")
 	r.Assume("reads of files outside the key directory are observed through inotify on decoy key files and through the key that a successful call used; databases the node legitimately writes to (sqlite.db*, *.db, events/) are compared by existence only")
 
